@@ -77,3 +77,25 @@ func VerifC03NumericFilterValue() {
 		vrt.Reach("int")
 	}
 }
+
+// VerifC03WideFilterValue: numeric filter values around the uint64 boundary
+// (20 digits): query side and put side agree on the value.
+func VerifC03WideFilterValue() {
+	tail := vrt.String("tail", 3)
+	for i := 0; i < 3; i++ {
+		vrt.Assume(tail[i] >= '0' && tail[i] <= '9')
+	}
+	s := "18446744073709551" + tail
+	if vrt.Bool("negative") {
+		s = "-" + s
+	}
+	var fs object.SearchFilters
+	fs.AddFilter("Attr", s, object.MatchNumGT)
+	n, err := parseNumericFilterValue(SearchFilter{SearchFilter: fs[0]})
+	put, perr := signed256.ParseDecimal(s)
+	vrt.Assert(err == nil && perr == nil, "20-digit values are integers on both sides")
+	if err == nil && perr == nil {
+		vrt.Assert(string(IntBytes(&n)) == string(IntBytes(&put)), "same index key on both sides across the uint64 boundary")
+	}
+	vrt.Reach("end")
+}
